@@ -185,6 +185,12 @@ def run(chk):
                 variant = [S.LATTICE_CONFIG, {"upem": 2048, "ascender": 1900, "descender": -500, "width": 0}, {}][k % 3]
                 if fmt and k % 2:
                     f = "glyf_colr_1"   # the gradient fallbacks only exist in COLRv1
+            if len(glyphs) >= 2 and n % 2 == 1:
+                # names against the input order: the glyph that comes FIRST (the donor of a shared shape) gets the name
+                # that sorts LAST (OT-SVG documents are written in name order, COLR layers in input order)
+                cps_rev = [g[0] for g in glyphs][::-1]
+                glyphs = [(cps_rev[i], g[1], g[2]) for i, g in enumerate(glyphs)]
+                info = dict(info, names="reversed against the input order")
             shared = compare_pair(chk, glyphs, tol, f, f"{kind} {k}", dict(info, kind=kind), variant=variant)
             chk.case(key=(kind, k, f), nontrivial=bool(shared and shared > 0))
             chk.traces_validated += 1
